@@ -45,6 +45,8 @@ EXC_TABLE = {
     "EOFError": ["Exception"],
     "IncompleteReadError": ["EOFError"],
     "LimitOverrunError": ["Exception"],
+    "QueueFull": ["Exception"],
+    "QueueEmpty": ["Exception"],
     "ValidationError": ["Exception"],
     "MqttError": ["Exception"],
     "AwesomeVersionException": ["Exception"],
@@ -61,6 +63,8 @@ parse_float = z3.Function("parse_float", StrS, FloatS)
 f_isnan = z3.Function("is_nan", FloatS, BoolS)
 f_isinf = z3.Function("is_inf", FloatS, BoolS)
 round_he = z3.Function("round_he", FloatS, IntS)
+f_val = z3.Function("float_value", FloatS, z3.RealSort())  # value of a finite float
+f_posinf = z3.Function("is_pos_inf", FloatS, BoolS)
 local_epoch = z3.Function("local_epoch", IntS, IntS)  # calendar.timegm(time.localtime()) at tick i
 av_valid = z3.Function("av_valid", StrS, BoolS)  # AwesomeVersion(s).valid
 av_section = z3.Function("av_section", StrS, IntS, IntS)  # AwesomeVersion(s).section(i)
@@ -299,9 +303,48 @@ class Lib:
             raise Unsupported(f"ordering of {a!r} and {b!r}")
         return r
 
+    def float_real(self, I, x):
+        """(is_nan, is_inf, is_pos_inf, value) of an operand of a float comparison; None if it is not numeric."""
+        if is_sym(x, "float"):
+            I.c.assume(z3.Not(z3.And(f_isnan(x.term), f_isinf(x.term))))
+            return f_isnan(x.term), f_isinf(x.term), f_posinf(x.term), f_val(x.term)
+        if isinstance(x, bool):
+            return None
+        if isinstance(x, (int, float)):
+            if x != x:
+                return z3.BoolVal(True), z3.BoolVal(False), z3.BoolVal(False), z3.RealVal(0)
+            if x in (float("inf"), float("-inf")):
+                return z3.BoolVal(False), z3.BoolVal(True), z3.BoolVal(x > 0), z3.RealVal(0)
+            return z3.BoolVal(False), z3.BoolVal(False), z3.BoolVal(False), z3.RealVal(repr(x) if isinstance(x, int) else str(x))
+        i = I.intv(x)
+        if i is not None and not isinstance(i, int):
+            return z3.BoolVal(False), z3.BoolVal(False), z3.BoolVal(False), z3.ToReal(i)
+        return None
+
+    def float_compare(self, I, op, a, b):
+        """IEEE comparison (A-NUM): every ordering with a NaN operand is False; infinities are ordered beyond every finite value."""
+        fa, fb = self.float_real(I, a), self.float_real(I, b)
+        if fa is None or fb is None:
+            return MISSING
+        (na, ia, pa, va), (nb, ib, pb, vb) = fa, fb
+        less = isinstance(op, (ast.Lt, ast.LtE))
+        strict = isinstance(op, (ast.Lt, ast.Gt))
+        if not less:  # a > b  ==  b < a
+            (na, ia, pa, va), (nb, ib, pb, vb) = fb, fa
+        # a < b (or a <= b) for non-NaN operands on the extended real line
+        a_neg_inf, a_pos_inf = z3.And(ia, z3.Not(pa)), z3.And(ia, pa)
+        b_neg_inf, b_pos_inf = z3.And(ib, z3.Not(pb)), z3.And(ib, pb)
+        fin = z3.And(z3.Not(ia), z3.Not(ib))
+        lt = z3.Or(z3.And(a_neg_inf, z3.Not(b_neg_inf)), z3.And(b_pos_inf, z3.Not(a_pos_inf)), z3.And(fin, va < vb))
+        eq = z3.Or(z3.And(a_neg_inf, b_neg_inf), z3.And(a_pos_inf, b_pos_inf), z3.And(fin, va == vb))
+        r = z3.And(z3.Not(na), z3.Not(nb), lt if strict else z3.Or(lt, eq))
+        return I.mk(r, "bool")
+
     def model_order_compare(self, I, op, a, b):
         if isinstance(a, LibObj) and a.kind == "awesomeversion":
             return self.av_compare(I, op, a, b)
+        if is_sym(a, "float") or is_sym(b, "float"):
+            return self.float_compare(I, op, a, b)
         if isinstance(a, tuple) and isinstance(b, tuple) and len(a) == len(b):
             # lexicographic comparison of equal-length int tuples
             ia, ib = [I.intv(x) for x in a], [I.intv(x) for x in b]
@@ -366,6 +409,20 @@ class Lib:
             return v[lo:hi]
         if isinstance(v, LibObj) and hasattr(v, "slice"):
             return v.slice(I, lo, hi)
+        if isinstance(v, Sym) and v.kind == "str" and all(x is None or (isinstance(x, int) and x >= 0) for x in (lo, hi)):
+            # s[lo:hi] with constant non-negative bounds: z3's str.substr has exactly Python's clamping for them.
+            # The case "nothing is cut" is split off so that the result stays the structural term s there.
+            lo = lo or 0
+            n = z3.Length(v.term)
+            if hi is None:
+                if lo == 0:
+                    return v
+                return Sym(z3.SubString(v.term, lo, n - lo), "str")
+            if hi <= lo:
+                return ""
+            if lo == 0 and I.c.branch(n <= hi, "slice-cuts-nothing"):
+                return v
+            return Sym(z3.SubString(v.term, lo, hi - lo), "str")
         raise Unsupported("slice")
 
     def getitem(self, I, v, k, fr, node):
@@ -388,10 +445,9 @@ class Lib:
         g = n.generators[0]
         it = I.ev(g.iter, fr)
         if not (isinstance(it, LibObj) and it.kind == "dict_items"):
-            if hasattr(it, "__next__") or isinstance(it, (list, tuple, dict, set)):
-                # put the evaluated iterable back for the generic path
-                raise Unsupported("dict comprehension over re-evaluated iterable") if hasattr(it, "__next__") else None
-            return MISSING
+            if hasattr(it, "__next__"):
+                raise Unsupported("dict comprehension over a generator")
+            return MISSING  # the generic path evaluates the (concrete, side-effect free) iterable again
         d = it.d
         t = g.target
         if not (isinstance(t, ast.Tuple) and len(t.elts) == 2 and all(isinstance(e, ast.Name) for e in t.elts)
@@ -443,6 +499,13 @@ class Lib:
         raise Unsupported(f"attribute {name} of {v!r}")
 
     def pydict_method(self, I, d, name, a, k, node):
+        if name in ("get", "pop") and a and isinstance(a[0], (Sym, Obj)):
+            if name == "pop":
+                raise Unsupported("dict.pop with a symbolic key on a concrete dict")
+            for key in list(d):  # a symbolic key into a concrete table: one path per entry it can equal, then the default
+                if I.c.branch(I.as_bool(I.eq_term(a[0], key)), "dict-get-key"):
+                    return d[key]
+            return a[1] if len(a) > 1 else None
         if name == "get":
             return d.get(a[0], a[1] if len(a) > 1 else None)
         if name == "pop":
@@ -580,7 +643,9 @@ class Lib:
                 I.raise_("ValueError")
             if I.c.branch(f_isinf(v.term), "round-inf"):
                 I.raise_("OverflowError")
-            return Sym(round_he(v.term), "int")
+            r = round_he(v.term)
+            I.c.assume(z3.And(z3.ToReal(r) - z3.RealVal("1/2") <= f_val(v.term), f_val(v.term) <= z3.ToReal(r) + z3.RealVal("1/2")))
+            return Sym(r, "int")
         if is_sym(v, "int"):
             return v
         raise Unsupported("round")
@@ -607,6 +672,8 @@ class Lib:
         v = a[0]
         if isinstance(v, Obj) and v.typ.kind == "dict" and v.typ.args[0] == TInt and len(a) == 1:
             if not I.c.branch(I.d_nonempty(v), "max-nonempty"):
+                if "default" in k:
+                    return k["default"]
                 I.raise_("ValueError")
             r = I.c.fresh("max", IntS)
             dom = I.d_dom(v)
@@ -617,6 +684,8 @@ class Lib:
             return Sym(r, "int")
         if isinstance(v, (list, tuple)) and all(isinstance(x, int) for x in v):
             if not v:
+                if "default" in k:
+                    return k["default"]
                 I.raise_("ValueError")
             return max(v)
         raise Unsupported("max")
